@@ -139,6 +139,7 @@ func (pr *Reader) Read(buf []byte) (cnt int, err error) {
 	if _, err := pr.Flush(); err != nil {
 		return 0, err
 	}
+	pr.bufBits = 0 // Bits peeked beyond numBits belong to bytes that are read directly below
 	cnt, err = pr.rd.Read(buf)
 	pr.Offset += int64(cnt)
 	return cnt, err
